@@ -222,14 +222,14 @@ Proof.
     unfold getv in Hle, Hs, Hl. unfold bind.
     destruct (alookup a st) as [cur|] eqn:L.
     + rewrite cadd_ok by lia.
-      destruct (IH (aset a (cur + amt) st) created (bals ++ [cur + amt])) as (st'&c'&bals'&E&H1&H2&H3); [|lia].
-      exists st', c', bals'. rewrite E. repeat split; try lia.
+      destruct (IH (aset a (cur + amt) st) created (bals ++ [cur + amt])) as (st'&c'&bals'&E&H1&H2&H3); [lia|].
+      exists st', c', bals'. rewrite E. split; [reflexivity|]. split; [lia|]. split; [lia|].
       intros x. rewrite H3, getv_aset. unfold getv at 2. destruct (x =? a) eqn:Ex.
       * apply N.eqb_eq in Ex; subst x. rewrite L, N.eqb_refl. lia.
       * rewrite N.eqb_sym, Ex. unfold getv. lia.
     + rewrite cadd_ok by lia.
-      destruct (IH (aset a (0 + amt) st) (created + 1) (bals ++ [0 + amt])) as (st'&c'&bals'&E&H1&H2&H3); [|lia].
-      exists st', c', bals'. rewrite E. repeat split; try lia.
+      destruct (IH (aset a (0 + amt) st) (created + 1) (bals ++ [0 + amt])) as (st'&c'&bals'&E&H1&H2&H3); [lia|].
+      exists st', c', bals'. rewrite E. split; [reflexivity|]. split; [lia|]. split; [lia|].
       intros x. rewrite H3, getv_aset. unfold getv at 2. destruct (x =? a) eqn:Ex.
       * apply N.eqb_eq in Ex; subst x. rewrite L, N.eqb_refl. lia.
       * rewrite N.eqb_sym, Ex. unfold getv. lia.
@@ -241,7 +241,7 @@ Lemma close_sums : forall l b bd bd' a, nth_error l b = Some bd -> bdone bd = fa
   (bsum (cmax a) (upd_nth b bd' l) + cmax a bd = bsum (cmax a) l).
 Proof.
   intros l b bd bd' a H Hd Hd'.
-  pose proof (bsum_upd (cone a) l b bd' H) as H1. pose proof (bsum_upd (cmax a) l b bd' H) as H2.
+  pose proof (bsum_upd (cone a) l b bd bd' H) as H1. pose proof (bsum_upd (cmax a) l b bd bd' H) as H2.
   assert (cone a bd' = 0 /\ cmax a bd' = 0) as [E1 E2].
   { unfold cone, cmax, isopen. rewrite Hd'. rewrite Bool.andb_false_r. split; reflexivity. }
   lia.
@@ -262,7 +262,7 @@ Proof.
   intros B s b bd bd' I H Ha Hd Hm Hu. destruct I.
   constructor; cbn [set_budgets store mBalance mActive mem budgets]; try assumption.
   - intros a. specialize (inv_mem0 a). unfold mem_ok, opencount, openmax in *. cbn [set_budgets mem budgets].
-    pose proof (bsum_upd (cone a) _ b bd' H) as H1. pose proof (bsum_upd (cmax a) _ b bd' H) as H2.
+    pose proof (bsum_upd (cone a) _ b bd bd' H) as H1. pose proof (bsum_upd (cmax a) _ b bd bd' H) as H2.
     assert (cone a bd' = cone a bd /\ cmax a bd' = cmax a bd) as [E1 E2].
     { unfold cone, cmax, isopen. rewrite Ha, Hd, Hm. split; reflexivity. }
     replace (bsum (cone a) (upd_nth b bd' (budgets s))) with (bsum (cone a) (budgets s)) by lia.
@@ -290,7 +290,7 @@ Proof.
     + apply N.eqb_neq in Ea.
       destruct (@cone_other {| bacct := a; bmax := amt; busage := uzero; bdone := false |} a' Ea) as [E1 E2].
       rewrite E1, E2, !N.add_0_r. exact inv_mem0.
-  - intros b x Hx. destruct (nth_error_app1 _ _ _ Hx) as [Hx'|[_ ->]].
+  - intros b x Hx. destruct (nth_error_app1 _ _ _ _ _ Hx) as [Hx'|[_ ->]].
     + exact (inv_usage0 _ _ Hx').
     + intros _. exists 0. split; [reflexivity | cbn [bmax]; lia].
 Qed.
@@ -331,7 +331,7 @@ Proof.
     - pose proof (inv_bound I). lia. }
   change (mem s1) with (mem s).
   destruct (alookup a (mem s)) as [e|] eqn:L; [|exact I1].
-  apply inv_set_mem_bal; [exact I1 | exact L |].
+  apply (@inv_set_mem_bal (B + amt) s1 a e _ I1 L).
   pose proof (inv_mem I a) as M. unfold mem_ok in M. rewrite L in M.
   unfold get_balance. rewrite L. change (openmax s1 a) with (openmax s a). lia.
 Qed.
@@ -365,7 +365,7 @@ Proof.
   destruct (bdone bd) eqn:Hd; [exact I|].
   unfold finish, bind. destruct (usub (busage bd) u) as [nu| |] eqn:S; try exact I. cbn [fst].
   apply inv_upd_budget with (bd := bd); try assumption; try reflexivity.
-  intros _. destruct (inv_usage I _ _ Hn Hd) as (t&Ht&Hle). cbn [with_usage busage bmax].
+  intros _. destruct (inv_usage I _ Hn Hd) as (t&Ht&Hle). cbn [with_usage busage bmax].
   destruct (utotal_ok _ Ht) as [-> Hs]. pose proof (usub_le _ _ S).
   exists (usum nu). split; [apply utotal_small; lia | lia].
 Qed.
@@ -386,27 +386,42 @@ Proof.
     rewrite N.add_0_r in H1, H2. rewrite H1, H2. exact M.
   - intros b' x Hx. rewrite Eb, nth_error_upd in Hx. destruct (Nat.eqb b' b).
     + rewrite Hn in Hx. injection Hx as <-. intros Hf. congruence.
-    + exact (inv_usage I _ _ Hx).
+    + exact (inv_usage I _ Hx).
   - unfold opencount, openmax. rewrite Eb.
     destruct (close_sums _ b bd' (bacct bd) Hn Hd Hd') as [H1 H2].
     destruct (cone_open _ Hd) as [E1 E2]. rewrite E1 in H1. rewrite E2 in H2. lia.
 Qed.
 
-Lemma inv_rollback : forall B s b, Inv B s -> B < two128 -> Inv B (fst (step s (Rollback b))).
+Lemma rollback_spec : forall B s b bd e, Inv B s -> B < two128 ->
+  nth_error (budgets s) b = Some bd -> bdone bd = false -> alookup (bacct bd) (mem s) = Some e ->
+  snd (step s (Rollback b)) = ODone /\ Inv B (fst (step s (Rollback b))) /\
+  store (fst (step s (Rollback b))) = store s /\
+  budgets (fst (step s (Rollback b))) = upd_nth b (mark_done bd) (budgets s) /\
+  alookup (bacct bd) (mem (fst (step s (Rollback b)))) =
+    (if opencount s (bacct bd) =? 1 then None else Some {| mbal := mbal e + bmax bd; mopen := mopen e - 1 |}) /\
+  (forall a', a' <> bacct bd -> alookup a' (mem (fst (step s (Rollback b)))) = alookup a' (mem s)).
 Proof.
-  intros B s b I HB. cbn [step]. destruct (nth_error (budgets s) b) as [bd|] eqn:Hn; [|exact I].
-  destruct (bdone bd) eqn:Hd; [exact I|].
-  destruct (open_cached I _ Hn Hd) as [e He]. rewrite He.
+  intros B s b bd e I HB Hn Hd He. cbn [step]. rewrite Hn, Hd, He.
   set (s1 := set_budgets s (upd_nth b (mark_done bd) (budgets s))).
   destruct (@closed_rest B s s1 b bd (mark_done bd) I Hn Hd eq_refl eq_refl eq_refl) as (R1&R2&R3&R4).
   pose proof (inv_mem I (bacct bd)) as M. unfold mem_ok in M. rewrite He in M.
-  apply (@release_inv B s1 (bacct bd) (bmax bd) e); try assumption.
+  destruct (@release_inv B s1 (bacct bd) (bmax bd) e) as (Q1&Q2&Q3&Q4&Q5&Q6); try assumption.
   - exact (inv_metric I).
   - exact (inv_active I).
   - exact (inv_bound I).
   - exact (inv_nodup I).
   - rewrite R3. tauto.
   - lia.
+  - refine (conj Q2 (conj Q1 (conj Q3 (conj Q4 (conj _ Q6))))).
+    rewrite Q5. destruct (opencount s1 (bacct bd) =? 0) eqn:E0; destruct (opencount s (bacct bd) =? 1) eqn:E1; try reflexivity; lia.
+Qed.
+
+Lemma inv_rollback : forall B s b, Inv B s -> B < two128 -> Inv B (fst (step s (Rollback b))).
+Proof.
+  intros B s b I HB. destruct (nth_error (budgets s) b) as [bd|] eqn:Hn; [|cbn [step]; rewrite Hn; exact I].
+  destruct (bdone bd) eqn:Hd; [cbn [step]; rewrite Hn, Hd; exact I|].
+  destruct (@open_cached B s b bd I Hn Hd) as [e He].
+  exact (proj1 (proj2 (rollback_spec b I HB Hn Hd He))).
 Qed.
 
 Lemma store_debit_ok : forall B s a u t, Inv B s -> utotal u = Ok t ->
@@ -424,7 +439,7 @@ Proof.
   rewrite csub_ok by lia.
   pose proof (getv_le_asum a (store s)) as Hle. unfold getv in Hle. rewrite L in Hle.
   rewrite stat_sub_ok by (rewrite (inv_metric I); lia).
-  exists bal. repeat split; try lia.
+  exists bal. split; [reflexivity|]. split; [lia|]. split; [reflexivity|].
   pose proof (asum_aset a (bal - t) (store s)) as Hs. unfold getv in Hs. rewrite L in Hs.
   pose proof (length_aset _ a (bal - t) (store s)) as Hl. rewrite L in Hl.
   apply inv_set_store with (B := B); try assumption; try lia.
@@ -433,29 +448,56 @@ Proof.
   - pose proof (inv_bound I). lia.
 Qed.
 
-Lemma inv_commit : forall B s b sok, Inv B s -> B < two128 -> Inv B (fst (step s (Commit b sok))).
+Lemma commit_spec : forall B s b bd e, Inv B s -> B < two128 ->
+  nth_error (budgets s) b = Some bd -> bdone bd = false -> alookup (bacct bd) (mem s) = Some e ->
+  let a := bacct bd in let t := usum (busage bd) in let r := step s (Commit b true) in
+  t <= bmax bd /\
+  ((r = (s, OErr EOther) /\ (alookup a (store s) = None \/ sbal s a < t)) \/
+   (alookup a (store s) <> None /\ t <= sbal s a /\ snd r = ODone /\ Inv B (fst r) /\
+    store (fst r) = aset a (sbal s a - t) (store s) /\
+    budgets (fst r) = upd_nth b (mark_committed bd) (budgets s) /\
+    alookup a (mem (fst r)) =
+      (if opencount s a =? 1 then None else Some {| mbal := mbal e + (bmax bd - t); mopen := mopen e - 1 |}) /\
+    (forall a', a' <> a -> alookup a' (mem (fst r)) = alookup a' (mem s)))).
 Proof.
-  intros B s b sok I HB. cbn [step]. destruct (nth_error (budgets s) b) as [bd|] eqn:Hn; [|exact I].
-  destruct (bdone bd) eqn:Hd; [exact I|]. destruct sok; [|exact I]. cbn [negb].
-  destruct (inv_usage I _ _ Hn Hd) as (t&Ht&Hle).
-  pose proof (@store_debit_ok B s (bacct bd) (busage bd) t I Ht) as SD.
-  destruct (store_debit s (bacct bd) (busage bd)) as [s1| |]; [|exact I|contradiction].
-  destruct SD as (bal&Lb&Hbal&Es1&I1).
-  unfold bind. rewrite Ht, csub_ok by lia.
-  destruct (open_cached I _ Hn Hd) as [e He].
-  set (s2 := set_budgets s1 (upd_nth b (mark_committed bd) (budgets s1))).
-  assert (Em : mem s2 = mem s) by (subst s2 s1; reflexivity).
-  assert (Eb : budgets s2 = upd_nth b (mark_committed bd) (budgets s)) by (subst s2 s1; reflexivity).
+  intros B s b bd e I HB Hn Hd He a t r. subst r. cbn [step]. rewrite Hn, Hd. cbn [negb].
+  destruct (inv_usage I _ Hn Hd) as (t0&Ht&Hle). destruct (utotal_ok _ Ht) as [-> Hsmall]. fold t in Ht, Hle.
+  split; [exact Hle|].
+  pose proof (@store_debit_ok B s a (busage bd) t I Ht) as SD. fold a.
+  unfold store_debit, bind in SD |- *. rewrite Ht in SD. rewrite Ht. unfold sbal.
+  destruct (alookup a (store s)) as [bal|] eqn:Lb; [|left; split; [reflexivity | left; reflexivity]].
+  destruct (bal <? t) eqn:C; [left; split; [reflexivity | right; lia]|].
+  right. rewrite (@csub_ok bal t) in SD by lia. rewrite (@csub_ok bal t) by lia.
+  pose proof (getv_le_asum a (store s)) as Hga. unfold getv in Hga. rewrite Lb in Hga.
+  rewrite (@stat_sub_ok (mBalance s) t) in SD by (rewrite (inv_metric I); lia).
+  rewrite (@stat_sub_ok (mBalance s) t) by (rewrite (inv_metric I); lia).
+  destruct SD as (bal'&Lb'&Hbal&Es1&I1). injection Lb' as <-.
+  rewrite (@csub_ok (bmax bd) t) by lia.
+  match goal with |- context [release ?S2 a (bmax bd - t)] => set (s2 := S2) end.
+  assert (Em : mem s2 = mem s) by reflexivity.
+  assert (Eb : budgets s2 = upd_nth b (mark_committed bd) (budgets s)) by reflexivity.
   destruct (@closed_rest B s s2 b bd (mark_committed bd) I Hn Hd eq_refl Em Eb) as (R1&R2&R3&R4).
-  pose proof (inv_mem I (bacct bd)) as M. unfold mem_ok in M. rewrite He in M.
-  apply (@release_inv B s2 (bacct bd) (bmax bd - t) e); try assumption.
+  pose proof (inv_mem I a) as M. unfold mem_ok in M. fold a in He. rewrite He in M.
+  fold a in R3, R4.
+  destruct (@release_inv B s2 a (bmax bd - t) e) as (Q1&Q2&Q3&Q4&Q5&Q6); try assumption.
   - exact (inv_metric I1).
   - exact (inv_active I1).
   - exact (inv_bound I1).
-  - rewrite Em. exact (inv_nodup I).
-  - rewrite Em. exact He.
+  - exact (inv_nodup I).
   - rewrite R3. tauto.
   - lia.
+  - split; [discriminate|]. split; [lia|].
+    refine (conj Q2 (conj Q1 (conj Q3 (conj Q4 (conj _ Q6))))).
+    rewrite Q5. destruct (opencount s2 a =? 0) eqn:E0; destruct (opencount s a =? 1) eqn:E1; try reflexivity; lia.
+Qed.
+
+Lemma inv_commit : forall B s b sok, Inv B s -> B < two128 -> Inv B (fst (step s (Commit b sok))).
+Proof.
+  intros B s b sok I HB. destruct (nth_error (budgets s) b) as [bd|] eqn:Hn; [|cbn [step]; rewrite Hn; exact I].
+  destruct (bdone bd) eqn:Hd; [cbn [step]; rewrite Hn, Hd; exact I|].
+  destruct sok; [|cbn [step]; rewrite Hn, Hd; exact I].
+  destruct (@open_cached B s b bd I Hn Hd) as [e He].
+  destruct (commit_spec b I HB Hn Hd He) as [_ [[E _]|(_&_&_&I'&_)]]; [rewrite E; exact I | exact I'].
 Qed.
 
 Lemma inv_r4credit : forall B s deps fund cok, Inv B s -> fund = asum deps -> B + asum deps < two128 ->
